@@ -84,10 +84,19 @@ func (n *node[T]) buildMethods() {
 	buildMethodIndexes(n.methodIndex)
 }
 
-func (n *node[T]) AllowHeader() string { return getMethodIndexEntity(n.methodIndex).options }
+func (n *node[T]) AllowHeader() string { return getMethodIndexEntity(n.getMethodIndex()).options }
 
 // Methods 当前节点支持的请求方法
-func (n *node[T]) Methods() []string { return getMethodIndexEntity(n.methodIndex).methods }
+func (n *node[T]) Methods() []string { return getMethodIndexEntity(n.getMethodIndex()).methods }
+
+// 在锁的范围内读取 methodIndex，Methods 和 AllowHeader 会在锁之外被用户调用。
+func (n *node[T]) getMethodIndex() int {
+	if l := n.root.locker; l != nil {
+		l.RLock()
+		defer l.RUnlock()
+	}
+	return n.methodIndex
+}
 
 func getMethodIndexEntity(index int) methodIndexEntity {
 	methodIndexesLocker.RLock()
